@@ -96,9 +96,9 @@ theorem lexInv_body : ∀ (body : List (Tok × Nat)) (T : List Char) (TS : List 
     obtain ⟨t, g⟩ := x
     intro T TS lt h hE hs
     obtain ⟨hwf, hadj, hrest⟩ := hs
-    have h1 : LexInv (T ++ sp t) (TS ++ [t]) (some t) :=
-      h.tok t (reads_of_wf t hwf) (fun t0 h0 rest => adjOK_noGlue t0 t (hadj t0 h0) hwf rest)
     obtain ⟨c, d, r', hsp, _, hlast, hd⟩ := sp_ends t hwf
+    have h1 : LexInv (T ++ sp t) (TS ++ [t]) (some t) :=
+      h.tok t (reads_of_wf t hwf) (by rw [hsp]; simp) (fun t0 h0 rest => adjOK_noGlue t0 t (hadj t0 h0) hwf rest)
     have h2 : LexInv (T ++ sp t ++ blanks g) (TS ++ [t]) (nxt t g) ∧ (EndsWs (T ++ sp t ++ blanks g) → nxt t g = none) := by
       by_cases hg : g = 0
       · subst hg
